@@ -19,6 +19,7 @@ import (
 // 全局变量
 var (
 	streams     sync.Map            // 流媒体集合 string->*Stream
+	streamsLock sync.Mutex          // serialises load-then-store / load-then-delete updates of streams
 	psFactories []PullStreamFactory // 拉流工厂
 )
 
@@ -41,14 +42,17 @@ func RegistPullStreamFactory(f PullStreamFactory) {
 // Regist 注册流
 func Regist(s *Stream) {
 	// 获取同 path 的现有流
+	streamsLock.Lock()
 	oldSI, ok := streams.Load(s.path)
 	if s == oldSI { // 如果是同一个源
+		streamsLock.Unlock()
 		return
 	}
 	verifPoint("regist.loaded", s)
 
 	// 设置新流
 	streams.Store(s.path, s)
+	streamsLock.Unlock()
 
 	// 如果存在旧流
 	if ok {
@@ -63,6 +67,7 @@ func Regist(s *Stream) {
 
 // Unregist 取消注册
 func Unregist(s *Stream) {
+	streamsLock.Lock()
 	si, ok := streams.Load(s.path)
 	verifPoint("unregist.loaded", s)
 	if ok {
@@ -71,6 +76,7 @@ func Unregist(s *Stream) {
 			streams.Delete(s.path)
 		}
 	}
+	streamsLock.Unlock()
 	s.Close()
 }
 
